@@ -181,6 +181,7 @@ theorem route_tagOK {prov : α → Prov σ} {sn : σ} {c : Conn α} (h10 : Inv10
   | get _ _ _ => trivial
   | sclose _ _ => trivial
   | «end» => trivial
+  | evict _ _ => trivial
 
 def WellTaggedRun (prov : α → Prov σ) (sn : σ) : Conn α → List (Label α) → Prop
   | _, [] => True
